@@ -1,50 +1,14 @@
 /-
-  C21 — finite case analysis of the doctor's control model.
+  C21 — structural lemmas about the doctor's control model (`MvModel/Doctor.lean`).
 
-  `Cond` × `Opts` is finite (5184 × 32).  The facts below are checked by kernel evaluation of the model on every
-  condition (`allCond`), one declaration per option combination where the whole space is needed; the lifting to
-  files (arbitrary frame lists / pending operations) is done structurally in `MvProps/C21.lean`.
+  Shape of the argument: opening a healable file succeeds and establishes `Inv`; every executor phase keeps `Inv`
+  and only improves the condition (`Step`); the plan computed from the probe runs the phases in the order
+  header, wal, vacuum, index, finalize; whatever the probe found wrong is covered by a phase of that plan.
 -/
 import MvModel.Doctor
 namespace Mv.Doctor
 
-/-! ### exhaustive enumeration -/
-
-def allB (f : Bool → Bool) : Bool := f false && f true
-def allFoot (f : Foot → Bool) : Bool := f .ok && f .magic && f .body
-def allIdx (f : Idx → Bool) : Bool := f .ok && f .missing && f .corrupt
-
-def allCond (p : Cond → Bool) : Bool :=
-  allB fun a => allB fun b => allB fun c => allFoot fun ft => allIdx fun t => allIdx fun l => allIdx fun v =>
-  allB fun w => allB fun hp => allB fun hf => p ⟨a, b, c, ft, t, l, v, w, hp, hf⟩
-
-theorem allB_spec {f : Bool → Bool} (h : allB f = true) (b : Bool) : f b = true := by
-  unfold allB at h
-  cases b <;> simp_all
-
-theorem allFoot_spec {f : Foot → Bool} (h : allFoot f = true) (x : Foot) : f x = true := by
-  unfold allFoot at h
-  cases x <;> simp_all
-
-theorem allIdx_spec {f : Idx → Bool} (h : allIdx f = true) (x : Idx) : f x = true := by
-  unfold allIdx at h
-  cases x <;> simp_all
-
-theorem allCond_spec {p : Cond → Bool} (h : allCond p = true) (c : Cond) : p c = true := by
-  obtain ⟨a, b, c3, ft, t, l, v, w, hp, hf⟩ := c
-  unfold allCond at h
-  have h := allB_spec h a
-  have h := allB_spec h b
-  have h := allB_spec h c3
-  have h := allFoot_spec h ft
-  have h := allIdx_spec h t
-  have h := allIdx_spec h l
-  have h := allIdx_spec h v
-  have h := allB_spec h w
-  have h := allB_spec h hp
-  exact allB_spec h hf
-
-/-! ### the predicates of the property on conditions -/
+/-! ### predicates on conditions -/
 
 /-- the doctor can open the file: the TOC can be located (pointer or footer intact) and either its checksum
     field is intact or WAL replay will rewrite it; the WAL region scans -/
@@ -52,9 +16,8 @@ def Healable (c : Cond) : Bool := (c.hdrPtr || c.foot == .ok) && (c.tocSum || c.
 
 /-- nothing left to repair -/
 def Good (c : Cond) : Bool :=
-  match c with
-  | ⟨hp, hs, ts, ft, t, _, v, w, pe, fr⟩ =>
-    hp && hs && ts && ft == .ok && t != .corrupt && !(t == .missing && fr) && v != .corrupt && w && !pe
+  c.hdrPtr && c.hdrSum && c.tocSum && c.foot == .ok && c.time != .corrupt && !(c.time == .missing && c.hasFrames)
+    && c.vec != .corrupt && c.walOk && !c.hasPending
 
 def okStatus : Outcome → Bool
   | .report .clean .none _ => true
@@ -65,94 +28,253 @@ def statusOf : Outcome → Option Status
   | .report s _ _ => some s
   | _ => none
 
-/-- one pass over the result of a run on a healable condition -/
-def healChk (o : Opts) (c : Cond) : Bool :=
-  !Healable c ||
-  match doctorC false o c with
-  | ⟨out, c', act⟩ =>
-    okStatus out && Good c' &&
-    (if c.hasPending then act == .replayed && c'.time == .ok else act == .keep && c'.hasFrames == c.hasFrames) &&
-    -- embeddings of a decodable vec index survive every option combination
-    (c.vec != .ok || c'.vec == .ok)
+/-! ### opening -/
 
-set_option maxRecDepth 100000
+/-- the header as `open_locked` leaves it -/
+def healedHdr (c : Cond) : Cond := if readToc c then c else { c with hdrPtr := true, hdrSum := true }
 
-theorem heal_0000 : allCond (healChk ⟨false, false, false, false, false⟩) = true := by decide +kernel
-theorem heal_1000 : allCond (healChk ⟨true, false, false, false, false⟩) = true := by decide +kernel
-theorem heal_0100 : allCond (healChk ⟨false, true, false, false, false⟩) = true := by decide +kernel
-theorem heal_1100 : allCond (healChk ⟨true, true, false, false, false⟩) = true := by decide +kernel
-theorem heal_0010 : allCond (healChk ⟨false, false, true, false, false⟩) = true := by decide +kernel
-theorem heal_1010 : allCond (healChk ⟨true, false, true, false, false⟩) = true := by decide +kernel
-theorem heal_0110 : allCond (healChk ⟨false, true, true, false, false⟩) = true := by decide +kernel
-theorem heal_1110 : allCond (healChk ⟨true, true, true, false, false⟩) = true := by decide +kernel
-theorem heal_0001 : allCond (healChk ⟨false, false, false, true, false⟩) = true := by decide +kernel
-theorem heal_1001 : allCond (healChk ⟨true, false, false, true, false⟩) = true := by decide +kernel
-theorem heal_0101 : allCond (healChk ⟨false, true, false, true, false⟩) = true := by decide +kernel
-theorem heal_1101 : allCond (healChk ⟨true, true, false, true, false⟩) = true := by decide +kernel
-theorem heal_0011 : allCond (healChk ⟨false, false, true, true, false⟩) = true := by decide +kernel
-theorem heal_1011 : allCond (healChk ⟨true, false, true, true, false⟩) = true := by decide +kernel
-theorem heal_0111 : allCond (healChk ⟨false, true, true, true, false⟩) = true := by decide +kernel
-theorem heal_1111 : allCond (healChk ⟨true, true, true, true, false⟩) = true := by decide +kernel
+/-- the handle `try_open` returns on a healable file -/
+def openMem (c : Cond) : Mem :=
+  if c.hasPending then
+    { c := { rewritten (healedHdr c) with hasPending := false, hasFrames := true }, moved := true, sumIsTarget := false }
+  else { c := healedHdr c, moved := false, sumIsTarget := !readToc c || c.hdrSum }
 
-theorem heal_all (o : Opts) (h : o.dryRun = false) : allCond (healChk o) = true := by
-  obtain ⟨a, b, c, d, e⟩ := o
-  simp only at h
-  subst h
-  cases a <;> cases b <;> cases c <;> cases d
-  · exact heal_0000
-  · exact heal_0001
-  · exact heal_0010
-  · exact heal_0011
-  · exact heal_0100
-  · exact heal_0101
-  · exact heal_0110
-  · exact heal_0111
-  · exact heal_1000
-  · exact heal_1001
-  · exact heal_1010
-  · exact heal_1011
-  · exact heal_1100
-  · exact heal_1101
-  · exact heal_1110
-  · exact heal_1111
+theorem tryOpen_healable {c : Cond} (h : Healable c = true) : tryOpen c = .ok (openMem c) := by
+  obtain ⟨hp, hs, ts, ft, t, l, v, w, pe, fr⟩ := c
+  cases hp <;> cases ft <;> cases ts <;> cases pe <;> cases w <;>
+    simp_all [Healable, tryOpen, openMem, healedHdr, readToc, recoverToc, footerValid, rewritten]
 
-/-- a run on a condition with nothing to repair: Clean (Healed when work is forced), same condition up to a rebuilt
-    lex index, data untouched -/
-def goodChk (o : Opts) (c : Cond) : Bool :=
-  !Good c ||
-  match doctorC false o c with
-  | ⟨out, c', act⟩ =>
-    (statusOf out == some (if o.forced then .healed else .clean)) && okStatus out && Good c' && act == .keep &&
-    (c' == { c with lex := c'.lex }) && (o.forced || c' == c) && (c.vec != .ok || c'.vec == .ok)
+/-- what `try_open` answers on a file it cannot open (WAL intact) -/
+def openFail (c : Cond) : OpenErr × Cond :=
+  if readToc c || recoverToc c then (.checksum, healedHdr c) else (.invalidToc, c)
 
-def allOptsWet (p : Opts → Bool) : Bool :=
-  allB fun a => allB fun b => allB fun c => allB fun d => p ⟨a, b, c, d, false⟩
+theorem tryOpen_unhealable {c : Cond} (h : Healable c = false) (hw : c.walOk = true) :
+    tryOpen c = .error (openFail c) := by
+  obtain ⟨hp, hs, ts, ft, t, l, v, w, pe, fr⟩ := c
+  simp only at hw
+  subst hw
+  cases hp <;> cases ft <;> cases ts <;> cases pe <;>
+    simp_all [Healable, tryOpen, openFail, healedHdr, readToc, recoverToc, footerValid]
 
-theorem allOptsWet_spec {p : Opts → Bool} (h : allOptsWet p = true) (o : Opts) (hd : o.dryRun = false) : p o = true := by
-  obtain ⟨a, b, c, d, e⟩ := o
-  simp only at hd
-  subst hd
-  unfold allOptsWet at h
-  have h := allB_spec h a
-  have h := allB_spec h b
-  have h := allB_spec h c
-  exact allB_spec h d
+/-! ### invariants of the executor -/
 
-theorem good_all : allOptsWet (fun o => allCond (goodChk o)) = true := by decide +kernel
+/-- what holds of the handle from opening to verification -/
+structure Inv (e : Exec) : Prop where
+  ptr : e.mem.c.hdrPtr = true
+  toc : e.mem.c.tocSum = true
+  foot : e.mem.moved = true → e.mem.c.foot = .ok
 
-/-- the exact report of a default-options run on a good condition -/
-theorem good_default_report : allCond (fun c => !Good c ||
-    (doctorC false Opts.default c).out == .report .clean .none [(.verify, .executed)]) = true := by decide +kernel
+/-- `e'` is `e` after some executor steps: nothing gets worse -/
+structure Step (e e' : Exec) : Prop where
+  moved : e'.mem.moved = e.mem.moved
+  frames : e'.mem.c.hasFrames = e.mem.c.hasFrames
+  foot : e.mem.c.foot = .ok → e'.mem.c.foot = .ok
+  time : e'.mem.c.time = e.mem.c.time ∨ e'.mem.c.time = .ok
+  vecOk : e.mem.c.vec = .ok → e'.mem.c.vec = .ok
+  vecNc : e.mem.c.vec ≠ .corrupt → e'.mem.c.vec ≠ .corrupt
 
-/-- a condition with nothing to repair opens and verifies -/
-theorem good_opens_verifies : allCond (fun c => !Good c || (opens c && verifyPassed c)) = true := by decide +kernel
+theorem Step.refl (e : Exec) : Step e e := ⟨rfl, rfl, id, .inl rfl, id, id⟩
 
-/-- outside `Healable` (WAL intact) the doctor reports Failed and touches no data -/
-def failChk (o : Opts) (c : Cond) : Bool :=
-  (Healable c || !c.walOk) ||
-  match doctorC false o c with
-  | ⟨out, c', act⟩ => statusOf out == some .failed && act == .keep && !opens c' && c'.hasPending == c.hasPending
+theorem Step.trans {a b c : Exec} (h1 : Step a b) (h2 : Step b c) : Step a c where
+  moved := h2.moved.trans h1.moved
+  frames := h2.frames.trans h1.frames
+  foot := fun h => h2.foot (h1.foot h)
+  time := by
+    rcases h2.time with h | h
+    · rcases h1.time with h' | h'
+      · exact .inl (h.trans h')
+      · exact .inr (h.trans h')
+    · exact .inr h
+  vecOk := fun h => h2.vecOk (h1.vecOk h)
+  vecNc := fun h => h2.vecNc (h1.vecNc h)
 
-theorem fail_all : allOptsWet (fun o => allCond (failChk o)) = true := by decide +kernel
+/-- no index rebuild is scheduled -/
+def NoFlags (e : Exec) : Prop := e.pTime = false ∧ e.pLex = false ∧ e.pVec = false
+
+/-! ### the phases the planner emits -/
+
+def hdrPhase (h1 h2 : Bool) : Phase × List Action :=
+  (.headerHealing, opt h1 Action.healHeaderPointer ++ opt h2 Action.healTocChecksum)
+def walPhase : Phase × List Action := (.walReplay, [.replayWal])
+def vacPhase : Phase × List Action := (.vacuum, [.vacuumCompaction])
+def idxPhase (i1 i2 i3 : Bool) : Phase × List Action :=
+  (.indexRebuild, opt i1 Action.rebuildTime ++ opt i2 Action.rebuildLex ++ opt i3 Action.rebuildVec)
+def finPhase : Phase × List Action := (.finalize, [.recomputeToc, .updateHeader])
+
+theorem hdrPhase_spec (h1 h2 : Bool) (e : Exec) (hi : Inv e) (hf : NoFlags e) :
+    Inv (runPhase e (hdrPhase h1 h2)).1 ∧ Step e (runPhase e (hdrPhase h1 h2)).1 ∧ NoFlags (runPhase e (hdrPhase h1 h2)).1 := by
+  obtain ⟨⟨c, moved, sit⟩, pt, pl, pv⟩ := e
+  obtain ⟨hptr, htoc, hfoot⟩ := hi
+  obtain ⟨f1, f2, f3⟩ := hf
+  simp only at hptr htoc hfoot f1 f2 f3
+  subst f1 f2 f3
+  have hrt : moved = true → readToc c = true := by
+    intro hm; simp [readToc, footerValid, hptr, hfoot hm]
+  cases h1 <;> cases h2 <;> cases moved <;> cases sit <;>
+    simp_all [hdrPhase, runPhase, runActions, execAction, opt, NoFlags] <;>
+    (refine ⟨⟨?_, ?_, ?_⟩, ⟨?_, ?_, ?_, ?_, ?_, ?_⟩⟩ <;> simp_all)
+
+theorem walPhase_spec (e : Exec) : (runPhase e walPhase).1 = e := by
+  simp [walPhase, runPhase, runActions, execAction]
+
+theorem vacPhase_spec (e : Exec) (hi : Inv e) (hf : NoFlags e) :
+    Inv (runPhase e vacPhase).1 ∧ Step e (runPhase e vacPhase).1 ∧ NoFlags (runPhase e vacPhase).1 := by
+  obtain ⟨⟨c, moved, sit⟩, pt, pl, pv⟩ := e
+  obtain ⟨f1, f2, f3⟩ := hf
+  simp only at f1 f2 f3
+  subst f1 f2 f3
+  simp [vacPhase, runPhase, runActions, execAction, rewritten, NoFlags]
+  refine ⟨⟨?_, ?_, ?_⟩, ⟨?_, ?_, ?_, ?_, ?_, ?_⟩⟩ <;> simp
+
+theorem idxPhase_spec (i1 i2 i3 : Bool) (hne : (i1 || i2 || i3) = true) (e : Exec) (hf : NoFlags e) :
+    Inv (runPhase e (idxPhase i1 i2 i3)).1 ∧ Step e (runPhase e (idxPhase i1 i2 i3)).1 ∧
+      (runPhase e (idxPhase i1 i2 i3)).1.mem.c.time = .ok ∧
+      (runPhase e (idxPhase i1 i2 i3)).1.mem.c.foot = .ok ∧
+      (runPhase e (idxPhase i1 i2 i3)).1.mem.c.hdrSum = true ∧
+      (i3 = true → (runPhase e (idxPhase i1 i2 i3)).1.mem.c.vec ≠ .corrupt) := by
+  obtain ⟨⟨c, moved, sit⟩, pt, pl, pv⟩ := e
+  obtain ⟨f1, f2, f3⟩ := hf
+  simp only at f1 f2 f3
+  subst f1 f2 f3
+  cases i1 <;> cases i2 <;> cases i3 <;> simp at hne <;>
+    (refine ⟨⟨?_, ?_, ?_⟩, ⟨?_, ?_, ?_, ?_, ?_, ?_⟩, ?_, ?_, ?_, ?_⟩ <;>
+      simp [idxPhase, runPhase, runActions, execAction, opt, applyRebuilds, rewritten] <;>
+      (try (intro h; simp [h])) <;> (try (split <;> simp_all)))
+
+theorem finPhase_spec (e : Exec) (hi : Inv e) :
+    Inv (runPhase e finPhase).1 ∧ Step e (runPhase e finPhase).1 ∧
+      (runPhase e finPhase).1.mem.c.foot = .ok ∧ (runPhase e finPhase).1.mem.c.hdrSum = true := by
+  obtain ⟨⟨c, moved, sit⟩, pt, pl, pv⟩ := e
+  cases pt <;> cases pl <;> cases pv <;>
+    (refine ⟨⟨?_, ?_, ?_⟩, ⟨?_, ?_, ?_, ?_, ?_, ?_⟩, ?_, ?_⟩ <;>
+      simp [finPhase, runPhase, runActions, execAction, applyRebuilds, rewritten] <;>
+      (try (intro h; simp [h])) <;> (try (split <;> simp_all)))
+
+/-! ### running the planner's plan -/
+
+/-- a phase that is run only when planned -/
+def stepIf (b : Bool) (ph : Phase × List Action) (e : Exec) : Exec := if b then (runPhase e ph).1 else e
+
+theorem runBody_opt {b : Bool} {ph : Phase × List Action} (hk : (ph.1 == Phase.verify) = false) (e : Exec) (rest : Plan) :
+    (runBody e (opt b ph ++ rest)).1 = (runBody (stepIf b ph e) rest).1 := by
+  cases b <;> simp [opt, stepIf, runBody, hk]
+
+theorem runBody_verify (e : Exec) (as : List Action) : (runBody e [(Phase.verify, as)]).1 = e := by
+  simp [runBody]
+
+/-- the five optional phases of `planOf`, as booleans -/
+structure Shape where
+  h1 : Bool
+  h2 : Bool
+  wp : Bool
+  vac : Bool
+  i1 : Bool
+  i2 : Bool
+  i3 : Bool
+  recovered : Bool
+
+def Shape.hdr (s : Shape) : Bool := s.h1 || s.h2
+def Shape.idx (s : Shape) : Bool := s.i1 || s.i2 || s.i3
+def Shape.fin (s : Shape) : Bool := s.recovered || (s.hdr || s.wp || s.vac || s.idx)
+
+def shapeOf (o : Opts) (p : Probe) : Shape :=
+  { h1 := p.tocFound && p.ptrMismatch, h2 := p.tocFound && p.sumMismatch, wp := p.walPending, vac := o.vacuum,
+    i1 := p.needsTime || o.rebuildTime, i2 := p.needsLex || o.rebuildLex, i3 := p.needsVec || o.rebuildVec,
+    recovered := p.recovered }
+
+def planOfShape (s : Shape) : Plan :=
+  opt s.hdr (hdrPhase s.h1 s.h2) ++ (opt s.wp walPhase ++ (opt s.vac vacPhase ++ (opt s.idx (idxPhase s.i1 s.i2 s.i3) ++
+    (opt s.fin finPhase ++ [(Phase.verify, [Action.deepVerify])]))))
+
+theorem planOf_eq (o : Opts) (p : Probe) : planOf o p = planOfShape (shapeOf o p) := by
+  obtain ⟨tf, rc, pm, sm, tsb, wp, wb, nt, nl, nv⟩ := p
+  obtain ⟨rt, rl, rv, va, dr⟩ := o
+  simp only [planOf, planOfShape, shapeOf, Shape.hdr, Shape.idx, Shape.fin, hdrPhase, walPhase, vacPhase, idxPhase, finPhase]
+  cases tf <;> cases pm <;> cases sm <;> cases wp <;> cases va <;> cases nt <;> cases rt <;> cases nl <;> cases rl <;>
+    cases nv <;> cases rv <;> cases rc <;> rfl
+
+/-- the handle after all planned phases before Verify -/
+def afterBody (s : Shape) (e : Exec) : Exec :=
+  stepIf s.fin finPhase (stepIf s.idx (idxPhase s.i1 s.i2 s.i3) (stepIf s.vac vacPhase (stepIf s.wp walPhase
+    (stepIf s.hdr (hdrPhase s.h1 s.h2) e))))
+
+theorem runBody_planOfShape (s : Shape) (e : Exec) : (runBody e (planOfShape s)).1 = afterBody s e := by
+  unfold planOfShape afterBody
+  rw [runBody_opt (by rfl), runBody_opt (by rfl), runBody_opt (by rfl), runBody_opt (by rfl), runBody_opt (by rfl),
+    runBody_verify]
+
+/-- what the body of the plan achieves (relative to the handle `e` it started from) -/
+def Achieved (s : Shape) (e x : Exec) : Prop :=
+  Inv x ∧ Step e x ∧ (s.idx = true → x.mem.c.time = .ok) ∧ (s.i3 = true → x.mem.c.vec ≠ .corrupt) ∧
+    (s.fin = true → x.mem.c.foot = .ok ∧ x.mem.c.hdrSum = true)
+
+theorem tail_fin (s : Shape) (e e4 : Exec) (i4 : Inv e4) (s4 : Step e e4)
+    (t4 : s.idx = true → e4.mem.c.time = .ok) (v4 : s.i3 = true → e4.mem.c.vec ≠ .corrupt) :
+    Achieved s e (stepIf s.fin finPhase e4) := by
+  unfold stepIf
+  by_cases hfin : s.fin = true
+  · obtain ⟨i5, s5, ft5, hs5⟩ := finPhase_spec e4 i4
+    simp only [hfin, if_true]
+    refine ⟨i5, s4.trans s5, ?_, ?_, fun _ => ⟨ft5, hs5⟩⟩
+    · intro hx
+      rcases s5.time with h | h
+      · rw [h]; exact t4 hx
+      · exact h
+    · intro hx
+      exact s5.vecNc (v4 hx)
+  · simp only [hfin]
+    exact ⟨i4, s4, t4, v4, fun h => absurd h hfin⟩
+
+theorem tail_idx (s : Shape) (e e3 : Exec) (i3 : Inv e3) (s3 : Step e e3) (f3 : NoFlags e3) :
+    Achieved s e (stepIf s.fin finPhase (stepIf s.idx (idxPhase s.i1 s.i2 s.i3) e3)) := by
+  by_cases hx : s.idx = true
+  · obtain ⟨i4, s4, t4, _, _, v4⟩ := idxPhase_spec s.i1 s.i2 s.i3 hx e3 f3
+    have : stepIf s.idx (idxPhase s.i1 s.i2 s.i3) e3 = (runPhase e3 (idxPhase s.i1 s.i2 s.i3)).1 := by
+      simp [stepIf, hx]
+    rw [this]
+    exact tail_fin s e _ i4 (s3.trans s4) (fun _ => t4) v4
+  · have h3 : s.i3 = false := by
+      unfold Shape.idx at hx
+      cases h : s.i3 <;> simp_all
+    have : stepIf s.idx (idxPhase s.i1 s.i2 s.i3) e3 = e3 := by
+      simp [stepIf, hx]
+    rw [this]
+    exact tail_fin s e _ i3 s3 (fun h => absurd h hx) (fun h => by simp [h3] at h)
+
+theorem tail_vac (s : Shape) (e e1 : Exec) (i1 : Inv e1) (s1 : Step e e1) (f1 : NoFlags e1) :
+    Achieved s e (stepIf s.fin finPhase (stepIf s.idx (idxPhase s.i1 s.i2 s.i3) (stepIf s.vac vacPhase e1))) := by
+  by_cases hv : s.vac = true
+  · obtain ⟨i3, s3, f3⟩ := vacPhase_spec e1 i1 f1
+    have : stepIf s.vac vacPhase e1 = (runPhase e1 vacPhase).1 := by simp [stepIf, hv]
+    rw [this]
+    exact tail_idx s e _ i3 (s1.trans s3) f3
+  · have : stepIf s.vac vacPhase e1 = e1 := by simp [stepIf, hv]
+    rw [this]
+    exact tail_idx s e _ i1 s1 f1
+
+theorem afterBody_spec (s : Shape) (e : Exec) (hi : Inv e) (hf : NoFlags e) : Achieved s e (afterBody s e) := by
+  unfold afterBody
+  have hw : ∀ e1, stepIf s.wp walPhase e1 = e1 := by
+    intro e1
+    unfold stepIf
+    split
+    · exact walPhase_spec e1
+    · rfl
+  rw [hw]
+  by_cases hh : s.hdr = true
+  · obtain ⟨i1, s1, f1⟩ := hdrPhase_spec s.h1 s.h2 e hi hf
+    have : stepIf s.hdr (hdrPhase s.h1 s.h2) e = (runPhase e (hdrPhase s.h1 s.h2)).1 := by simp [stepIf, hh]
+    rw [this]
+    exact tail_vac s e _ i1 s1 f1
+  · have : stepIf s.hdr (hdrPhase s.h1 s.h2) e = e := by simp [stepIf, hh]
+    rw [this]
+    exact tail_vac s e _ hi (Step.refl e) hf
+
+/-- without a finalize phase nothing was planned at all -/
+theorem afterBody_nofin (s : Shape) (e : Exec) (h : s.fin = false) : afterBody s e = e := by
+  have hall : s.hdr = false ∧ s.wp = false ∧ s.vac = false ∧ s.idx = false := by
+    unfold Shape.fin at h
+    cases h1 : s.hdr <;> cases h2 : s.wp <;> cases h3 : s.vac <;> cases h4 : s.idx <;> simp_all
+  simp [afterBody, stepIf, h, hall.1, hall.2.1, hall.2.2.1, hall.2.2.2]
 
 end Mv.Doctor
